@@ -189,3 +189,76 @@ func renameIDs(req M, ren map[string]string) M {
 }
 
 var untidyIDs = map[string]string{"a": " a", "b": "b ", "c": "C", "zz": " "}
+
+func mapKeys(m map[string]interface{}) []string {
+	var out []string
+	for k := range m {
+		out = append(out, k)
+	}
+	sort.Strings(out)
+	return out
+}
+
+// reverseChose lists choseToMake in the opposite order and leaves knownAlternatives as they are: the order in which the
+// alternatives are considered is the request's choseToMake order, not the catalogue order.
+func reverseChose(req M) M {
+	r := asM(deepCopy(req))
+	ch := asL(r["choseToMake"])
+	rev := make([]interface{}, len(ch))
+	for i := range ch {
+		rev[len(ch)-1-i] = ch[i]
+	}
+	r["choseToMake"] = rev
+	return M(r)
+}
+
+// manyAlternatives: a heuristic request with n considered alternatives (13 and more: beyond the size up to which the
+// standard sort is an insertion sort), ids and choseToMake in two different scrambled orders, values on a three-level
+// grid so that many alternatives share a level / tie, one more known alternative that is not considered.
+func manyAlternatives(method string, n, pat int, mp M) M {
+	ids := make([]string, n)
+	for i := range ids {
+		ids[i] = fmt.Sprintf("n%02d", (i*7+3)%n)
+	}
+	var ka L
+	for i, id := range ids {
+		ka = append(ka, alt(id, map[string]float64{"c1": float64((i*(pat+1) + pat) % 3), "c2": float64((i*(pat+2) + 1) % 3)}))
+	}
+	ka = append(ka, alt("zz", map[string]float64{"c1": 1, "c2": 1}))
+	var chose L
+	for i := range ids {
+		chose = append(chose, ids[(i*5+1)%n])
+	}
+	return M{"preferenceFunction": method, "knownAlternatives": ka, "choseToMake": chose, "criteria": L{crit("c1", "gain"), crit("c2", "cost")}, "methodParameters": mp}
+}
+
+var manySizes = []int{13, 16, 31}
+
+// floorEdgeCounts: (n, ratio) with n*ratio a whole number k mathematically while float64(n)*ratio lands just below or
+// exactly on it — the documented count is floor of the float product, whatever a "tolerant" floor would say.
+func floorEdgeCounts() [][2]float64 {
+	var out [][2]float64
+	for _, n := range []int{22, 23, 26, 49} {
+		for j := 1; j < n; j++ {
+			r := float64(j) / float64(n)
+			p := float64(n) * r
+			if p != math.Floor(p) && math.Ceil(p)-p < 1e-9 {
+				out = append(out, [2]float64{float64(n), r})
+			}
+		}
+	}
+	out = append(out, [2]float64{50, 0.58}, [2]float64{22, 0.5}, [2]float64{23, 0.34})
+	return out
+}
+
+// wideRequest: n criteria (scrambled pairwise distinct weights, every third a cost criterion), alternatives a, b, c.
+func wideRequest(method string, n int) M {
+	cids := critIDs(n)
+	vals := [][]float64{make([]float64, n), make([]float64, n), make([]float64, n)}
+	w := make([]float64, n)
+	for j := 0; j < n; j++ {
+		w[j] = float64((j*5)%n+1) / 2
+		vals[0][j], vals[1][j], vals[2][j] = float64((j*3)%7)+1, float64((j*5+2)%7)+1, float64((j*2+4)%7)+1
+	}
+	return genericRequest(method, cids, 1, []string{"a", "b", "c"}, vals, []string{"c", "a"}, w)
+}
